@@ -24,9 +24,10 @@ CONSTANTS
   SplitOnlyAtEnqueue = FALSE
   DropOnClose = FALSE
   WriteErrorEndsReader = FALSE
+  AckOvertakes = FALSE
   ForwardInitWin = FALSE
   WithSettings = TRUE
-INVARIANTS ReaderAlive NotStarved WithinGrant WithinMaxFrame NoEligibleQueued LedgerAgrees PrefixFidelity Conserved HpackInOrder
+INVARIANTS WithinGrantAsReceiverCountsIt ReaderAlive NotStarved WithinGrant WithinMaxFrame NoEligibleQueued LedgerAgrees PrefixFidelity Conserved HpackInOrder
 CONSTRAINT HWM
 POSTCONDITION Accepted
 CHECK_DEADLOCK FALSE
